@@ -912,3 +912,29 @@ def run(tier):
         "TLC integer arithmetic and sequence operators",
     ]
     return rep
+
+
+def replay(path):
+    """bin/check C19 --replay <file>: re-run the recorded input on the real code (damaged encodings) or
+    re-submit the recorded event, and let TLC judge it again."""
+    import json
+    e = dict(json.load(open(path))["data"])
+    for k, v in list(e.items()):
+        if isinstance(v, str) and v.startswith("hex:"):
+            e[k] = list(bytes.fromhex(v[4:]))
+    spec = "Trace_DER.tla" if e.get("op") in ("enclen", "readlen", "int", "oid", "wrap", "prim") else "Trace_KeyEnc.tla"
+    if e.get("op") == "mut":
+        signal.signal(signal.SIGVTALRM, _alarm)
+        c = next(c for c in _ws_curves() if c.openssl_name == e["curve"])
+        data = bytes.fromhex(e.pop("input_hex"))
+        e.pop("base_hex", None)
+        e["out"], e["mro"], e["site"] = _call(_decoders(c)[e["dec"]], data)
+        print("%s(%s) on %s -> %s %s %s" % (e["dec"], data.hex(), e["curve"], e["out"], e["mro"][:1], e["site"]))
+    e["tid"] = 1
+    with Scratch("c19r") as wd:
+        rej, _ = tlc.validate_trace(os.path.join(SPEC, spec), CFG, [e], wd, shards=1)
+    for x in rej:
+        print("REJECTED %s: op %s" % (x[2], e.get("op")))
+    if not rej:
+        print("accepted: op %s" % e.get("op"))
+    return 1 if rej else 0
